@@ -907,10 +907,11 @@ func (p *c22Plan) kindLabel() string {
 // Findings confirmed against the unchanged tree (see mutants/C22/RESULTS.md
 // and the final report).  Each predicate isolates exactly one defect.
 const (
-	// a failed install: the undo of the batch setup-profiles task of the
-	// auto-connections runs BEFORE the undo of the (delayed-setup-profiles)
-	// connect tasks, which do not regenerate profiles themselves; the snap at
-	// the other end keeps a profile generated with the auto-connection.
+	// a failed install: the batch setup-profiles task of the auto-connections
+	// ran (and its undo runs BEFORE the undo of the connect tasks); the
+	// delayed-setup-profiles connect tasks do not regenerate profiles in their
+	// undo and nobody else does: the snap at the other end keeps a profile
+	// generated with the auto-connection.
 	c22FpInstallPeer = "F-C22-1"
 	// doConnect: the second Setup (plug snap) fails after the first one (slot
 	// snap) wrote a profile that includes the new connection; the connection
@@ -969,7 +970,9 @@ func (r *c22Run) classifyProfile(a *c22Attempt, plan *c22Plan, name, msg string)
 	case plan.install != "" && name != plan.install:
 		batchUndone := false
 		for _, t := range a.chg.Tasks() {
-			if t.Kind() == "setup-profiles" && len(t.WaitTasks()) > 0 && t.WaitTasks()[0].Kind() == "connect" && t.Status() == state.UndoneStatus {
+			// the batch task ran: it was done and undone, or failed half-way
+			// (one Setup failed, the other affected snaps were still set up)
+			if t.Kind() == "setup-profiles" && len(t.WaitTasks()) > 0 && t.WaitTasks()[0].Kind() == "connect" && (t.Status() == state.UndoneStatus || t.Status() == state.ErrorStatus) {
 				batchUndone = true
 			}
 		}
